@@ -127,7 +127,7 @@ def run_modes(case):
     n_map = ncalls.calls
     nP = cfg["n_particles"]
     perms = [list(pm) for pm in itertools.permutations(range(nP))][1:]
-    scheds = [{k: pm} for k in range(1, n_map + 1) for pm in perms]
+    scheds = [{k: pm} for k in range(1, n_map + 1) for pm in perms] if case["max_dev"] >= 1 else []
     if case["max_dev"] >= 2:
         pairs = [(k1, k2) for k1 in range(1, n_map + 1) for k2 in range(k1 + 1, n_map + 1)]
         # all pairs of calls x all pairs of permutations is large: every call pair with every permutation pair drawn from a
@@ -152,7 +152,7 @@ def run_modes(case):
             _calls_ok(res, "permuted-pool", f"permuted pool {sc}", cc, tr)
             res.outcome((cls.__name__, tuple(sorted((k, repr(v)) for k, v in cfg.items())), blobs, tuple(sorted((k, tuple(v)) for k, v in sc.items()))), nontrivial=True)
     res.bump("map_calls_per_run", n_map)
-    res.sample({"cfg": cfg, "blobs": blobs, "map_calls": n_map, "schedules": len(scheds), "example": {str(k): v for k, v in scheds[len(scheds) // 2].items()}}, cap=1)
+    res.sample({"cfg": cfg, "blobs": blobs, "map_calls": n_map, "schedules": len(scheds), "example": ({str(k): v for k, v in scheds[len(scheds) // 2].items()} if scheds else None)}, cap=1)
     return res
 
 
@@ -205,6 +205,17 @@ def plan(ctx):
         for blobs in (False, True):
             cfg = dict(n_particles=3, d=1, n_total=12, sample=kern, clustering=False, resample="mult", target="sliver")
             cases.append({"kind": "modes", "cfg": cfg, "blobs": blobs, "base": ctx.seed, "max_dev": 1, "shard": 0, "nshards": 1})
+    # bound extra arguments (log_likelihood_args / log_likelihood_kwargs) must reach the likelihood in every evaluation mode
+    for extra in (dict(ll_kwargs={"scale": 0.25}), dict(ll_args=[1.5]), dict(ll_args=[-2.0], ll_kwargs={"scale": 3.0})):
+        for kern in ("tpcn", "rwm"):
+            for blobs in (False, True):
+                cfg = dict(n_particles=3, d=1, n_total=12, sample=kern, clustering=False, resample="mult", **extra)
+                cases.append({"kind": "modes", "cfg": cfg, "blobs": blobs, "base": ctx.seed, "max_dev": 1 if th else 0, "shard": 0, "nshards": 1})
+    # a target pressed into a corner with very few walkers: steps in which EVERY proposal leaves the cube
+    for nP in (1, 2, 3):
+        for kern in ("tpcn", "rwm"):
+            cfg = dict(n_particles=nP, d=2, n_total=4 * nP, sample=kern, clustering=False, resample="mult", target="corner", n_steps=3)
+            cases.append({"kind": "modes", "cfg": cfg, "blobs": False, "base": ctx.seed, "max_dev": 0, "shard": 0, "nshards": 1})
     ctx.bounds.update({"mode_cases": len(cases), "batch_sizes": [3, 4], "permutations": "all 3! / 4! at every map call", "deviating_calls": "1 (quick), 2 for n=3 (thorough, permutation pairs on a diagonal)"})
     if th:
         ctx.cap("2-deviation schedules use a diagonal of permutation pairs (every call pair x every first permutation), not the full 5x5 / 23x23 product")
